@@ -20,6 +20,10 @@ from nemoguardrails.colang.v1_0.runtime.eval import eval_expression
 
 log = logging.getLogger(__name__)
 
+# As a safety measure, we stop sliding a flow that goes through too many elements
+# without reaching one that waits for something (e.g., a `while` that never ends).
+MAX_SLIDING_STEPS = 100000
+
 
 def slide(state: "State", flow_config: "FlowConfig", head: int) -> Optional[int]:
     """
@@ -53,7 +57,15 @@ def slide(state: "State", flow_config: "FlowConfig", head: int) -> Optional[int]
     # we put the prev_head on the last element.
     prev_head = head if head < len(flow_config.elements) else head - 1
 
+    sliding_steps = 0
+
     while True:
+        sliding_steps += 1
+        if sliding_steps > MAX_SLIDING_STEPS:
+            raise Exception(
+                f"Too many sliding steps in flow '{flow_config.id}' (infinite loop?)."
+            )
+
         # if we reached the end, we stop
         if head == len(flow_config.elements) or head < 0:
             # We make a convention to return the last head, multiplied by -1 when the flow finished
